@@ -24,6 +24,7 @@
 //	                                                         w = a pause in which the server's background loops run), then the flush calls
 //	ws <route id> <hex of the JSON text frame>               websocket routes: upgrade, one text frame, read until closed
 //	om <hex text> / ot <hex text>                            the OpenTSDB `m=` / time parsers against their Lean model (Model/OtsdbQuery.lean)
+//	gl <terminal state> <route id> <hex>                     a query steered into a terminal state; afterwards no goroutine / table entry of it remains (c17_alive_gor.go)
 //
 // Tokens in a request (same length as what replaces them, so Content-Length stays right): ids of the bootstrap's
 // objects, 36 bytes each (c17aTokens).  Output line: `ok` (rq / ws: the Lean side checks the op-line grammar only).
@@ -643,6 +644,8 @@ func c17aExec(line string) Result {
 	switch f[0] {
 	case "om", "ot":
 		return c17aExecModel(f)
+	case "gl": // the goroutines of a query after its terminal state (c17_alive_gor.go)
+		return c17gExec(f, ticket, classTags)
 	case "rq":
 		if len(f) != 4 || (f[1] != "i" && f[1] != "q") || !c17aRouteIDRe.MatchString(f[2]) {
 			return Result{Out: "bad-op"}
